@@ -40,6 +40,8 @@ pub enum Entry {
     Build { bounded: Option<u8>, strat: Strat, owning: bool },
     BuildOnStream { bounded: Option<u8>, owning: bool },
     BuildRegister { bounded: Option<u8> },
+    /// builder with a handler limit of HANDLER_LIMIT (first or second builder stage), failing or carrying on
+    BuildTimeout { fail: bool, owning: bool, late: bool },
     FromRegistry,
     SetupThenFromRegistry,
     SpawnThenRegister,
@@ -88,6 +90,9 @@ pub enum Op {
     EndStream,
     /// let the runtime run
     Pause,
+    /// leave the actor idle for longer than HANDLER_LIMIT, then call a handler that awaits a few times and
+    /// is done within a few milliseconds: the limit is per invocation, however long the actor has lived
+    IdleThenYieldingGet,
     /// send a message, then block the calling thread (no await) until the actor has handled it: a
     /// spawned actor makes progress on its own, whatever the task that spawned it does
     BlockingProbe,
@@ -252,6 +257,18 @@ impl Handler<Get> for Counter {
         self.sum
     }
 }
+struct YieldingGet;
+impl Message for YieldingGet {
+    type Response = i64;
+}
+impl Handler<YieldingGet> for Counter {
+    async fn handle(&mut self, _ctx: &mut Context<Self>, _m: YieldingGet) -> i64 {
+        for _ in 0..3 {
+            hannibal::runtime::sleep(Duration::from_millis(1)).await;
+        }
+        self.sum
+    }
+}
 impl Handler<Tick> for Counter {
     async fn handle(&mut self, ctx: &mut Context<Self>, _m: Tick) {
         if self.ticks_left > 0 {
@@ -296,6 +313,8 @@ impl StreamHandler<i64> for Counter {
 // running
 
 const WATCHDOG: Duration = Duration::from_secs(2);
+/// two orders of magnitude above what any handler of `Counter` needs
+const HANDLER_LIMIT: Duration = Duration::from_millis(500);
 
 /// await with a watchdog; None = timed out.  A panic inside the awaited operation (e.g. a join
 /// handle polled after completion) is caught and re-raised as the `Panicked` marker error.
@@ -381,6 +400,14 @@ async fn enter(entry: &Entry) -> Live {
                 None => b.unbounded().register().await,
             };
             live.addrs.push(r.expect("register on an empty registry").0);
+        }
+        Entry::BuildTimeout { fail, owning, late } => {
+            let b = if *late {
+                hannibal::build(Counter::new()).unbounded().timeout(HANDLER_LIMIT).fail_on_timeout(*fail)
+            } else {
+                hannibal::build(Counter::new()).timeout(HANDLER_LIMIT).fail_on_timeout(*fail).unbounded()
+            };
+            if *owning { live.owning = Some(b.spawn_owning()) } else { live.addrs.push(b.spawn()) }
         }
         Entry::FromRegistry => live.addrs.push(Counter::from_registry().await),
         Entry::SetupThenFromRegistry => {
@@ -751,6 +778,13 @@ async fn run_program(p: &Program) -> Record {
                 }
                 None => "skip".into(),
             },
+            Op::IdleThenYieldingGet => match &target {
+                Some(a) => {
+                    hannibal::runtime::sleep(HANDLER_LIMIT + Duration::from_millis(100)).await;
+                    g!(a.call(YieldingGet))
+                }
+                None => "skip".into(),
+            },
             Op::Pause => {
                 hannibal::runtime::sleep(Duration::from_millis(2)).await;
                 "ok".into()
@@ -921,6 +955,14 @@ mod generate {
             if id % 40 == 13 {
                 ops.push(Op::ExecBodyAfterHalt);
             }
+            // a handler limit and an actor that has idled for longer than that: one program in 80
+            let entry = if id % 80 == 23 {
+                let at = (id as usize / 80) % 3;
+                ops.insert(at.min(ops.len()), Op::IdleThenYieldingGet);
+                Entry::BuildTimeout { fail: (id / 80) % 2 == 0, owning: (id / 160) % 2 == 0, late: (id / 320) % 2 == 0 }
+            } else {
+                entry
+            };
             if id % 40 == 27 {
                 let at = (id as usize / 40) % 3;
                 ops.insert(at.min(ops.len()), Op::TimedTicks { with: (id / 40) % 2 == 1, k: 20, period_us: 900 });
